@@ -746,7 +746,10 @@ wrapped_interval<Number>::operator||(const wrapped_interval<Number> &x) const {
       new_start = (m_start * wrapint(2, w)) - m_end - wrapint(1, w);
     }
     return join | wrapped_interval<Number>(new_start, m_end);
-  } else if (x.at(m_start) && x.at(m_end)) {
+  } else if (*this <= x) {
+    // the old interval is included in the new one. (Having both ends of
+    // the old interval in the new one is not enough: the old interval
+    // may cover the gap of the new one, and then their join is top.)
     // in principle we should increase by some power of two the end
     // point while reducing by the same power of two the start
     // one. We just increase the end and this will eventually reach
@@ -887,7 +890,10 @@ wrapped_interval<Number> wrapped_interval<Number>::widening_thresholds(
     }
     // TODO: apply thresholds
     return join | wrapped_interval<Number>(new_start, m_end);
-  } else if (x.at(m_start) && x.at(m_end)) {
+  } else if (*this <= x) {
+    // the old interval is included in the new one. (Having both ends of
+    // the old interval in the new one is not enough: the old interval
+    // may cover the gap of the new one, and then their join is top.)
     // in principle we should increase by some power of two the end
     // point while reducing by the same power of two the start
     // one. We just increase the end and this will eventually reach
